@@ -418,10 +418,38 @@ def source_constants():
         tree = ast.parse((core.REPO / 'bobocep/cep/gen/event_id.py').read_text())
     except Exception:   # noqa
         return []
+    def fold(n):
+        """value of an integer expression written out of literals (12 * 60 * 60, 1 << 16, 10 ** 6 - 1 …), else None"""
+        if isinstance(n, ast.Constant):
+            return n.value if type(n.value) is int else None
+        if isinstance(n, ast.UnaryOp) and isinstance(n.op, ast.USub):
+            v = fold(n.operand)
+            return None if v is None else -v
+        if isinstance(n, ast.BinOp):
+            a, b = fold(n.left), fold(n.right)
+            if a is None or b is None:
+                return None
+            try:
+                if isinstance(n.op, ast.Add):
+                    return a + b
+                if isinstance(n.op, ast.Sub):
+                    return a - b
+                if isinstance(n.op, ast.Mult):
+                    return a * b
+                if isinstance(n.op, ast.FloorDiv):
+                    return a // b
+                if isinstance(n.op, ast.LShift) and 0 <= b <= 40:
+                    return a << b
+                if isinstance(n.op, ast.Pow) and 0 <= b <= 12 and abs(a) <= 1000:
+                    return a ** b
+            except Exception:   # noqa
+                return None
+        return None
     out = set()
     for n in ast.walk(tree):
-        if isinstance(n, ast.Constant) and type(n.value) is int and 2 <= n.value <= 2_000_000:
-            out.add(n.value)
+        v = fold(n) if isinstance(n, (ast.Constant, ast.BinOp)) else None
+        if v is not None and 2 <= abs(v) <= 2_000_000:
+            out.add(abs(v))
     return sorted(out)
 
 
